@@ -197,12 +197,20 @@ func (g *graphGen) objectBody(self int, total int, usedKeys map[string]bool) *mo
 
 // Graph builds the schema.
 func Graph(r *mon.Rng, maxTypes int) *model.Schema {
+	if maxTypes >= 5 {
+		switch r.Intn(16) {
+		case 0:
+			return allOfMotif(r)
+		case 1:
+			return arrayUnionMotif(r)
+		}
+	}
 	g := &graphGen{r: r, s: &model.Schema{}}
 	n := r.Range(1, maxTypes)
 	g.total = n
 	for i := 0; i < n; i++ {
 		var t *model.TypeDef
-		kind := mon.Pick(r, []string{"object", "object", "object", "array", "keystring", "string", "integer", "integer", "or", "regex", "enum", "float", "uarray"})
+		kind := mon.Pick(r, []string{"object", "object", "object", "array", "keystring", "string", "integer", "integer", "or", "or", "regex", "enum", "float", "uarray", "uarray"})
 		if kind == "uarray" && len(g.scalarTypeIdx(i)) < 2 {
 			kind = "integer"
 		}
@@ -230,6 +238,14 @@ func Graph(r *mon.Rng, maxTypes int) *model.Schema {
 					}
 				}
 				o.Rules = append(rs, model.RAllOf(ps...))
+				if r.Bool() {
+					// the inheriting object has no required key of its own
+					for _, pr := range o.Props {
+						if pr.Node.Rule("optional") == nil {
+							pr.Node.Rules = append(pr.Node.Rules, model.RBool("optional", true))
+						}
+					}
+				}
 			}
 			t = &model.TypeDef{Name: tname(i), Root: o}
 		case "array":
@@ -273,7 +289,7 @@ func Graph(r *mon.Rng, maxTypes int) *model.Schema {
 				arr.Rules = append(arr.Rules, model.RInt("minItems", r.Intn(len(arr.Items)+1)))
 			}
 			t = &model.TypeDef{Name: tname(i), Root: arr}
-			kind = "array"
+			kind = "uarray"
 		case "integer":
 			if r.Bool() {
 				t = &model.TypeDef{Name: tname(i), Root: model.Int("3").With(model.RNum("min", "0"))}
@@ -284,6 +300,16 @@ func Graph(r *mon.Rng, maxTypes int) *model.Schema {
 			t = &model.TypeDef{Name: tname(i), Root: model.Flt("1.5")}
 		case "or":
 			a, b := tname(r.Intn(i)), tname(r.Intn(i))
+			// unions of array types whose items are unions themselves
+			var uarrs []int
+			for j, kd := range g.kinds {
+				if kd == "uarray" || kd == "array" {
+					uarrs = append(uarrs, j)
+				}
+			}
+			if len(uarrs) >= 2 && r.Bool() {
+				a, b = tname(uarrs[r.Intn(len(uarrs))]), tname(uarrs[r.Intn(len(uarrs))])
+			}
 			if a == b {
 				t = &model.TypeDef{Name: tname(i), Root: model.Ref(a)}
 			} else {
@@ -328,4 +354,106 @@ func Graph(r *mon.Rng, maxTypes int) *model.Schema {
 		}
 	}
 	return g.s
+}
+
+// allOfMotif: object types inheriting from one or two parents (own keys often all optional) used
+// next to direct uses of the parents themselves, and a three-level chain; what a parent requires
+// must not leak between a parent and the types built from it.
+func allOfMotif(r *mon.Rng) *model.Schema {
+	opt := func(n *model.Node) *model.Node {
+		if r.Chance(2, 3) {
+			n.Rules = append(n.Rules, model.RBool("optional", true))
+		}
+		return n
+	}
+	b := model.Obj(model.P("b", model.Int("1")))
+	if r.Chance(1, 3) {
+		b.Props = append(b.Props, model.P("b2", model.Str("x").With(model.RBool("optional", true))))
+	}
+	cc := model.Obj(model.P("c", model.Int("2")))
+	if r.Chance(1, 3) {
+		cc.Props = append(cc.Props, model.P("c2", model.Bool(true)))
+	}
+	d := model.Obj(model.P("d", opt(model.Int("3")))).With(model.RAllOf("@t0", "@t1"))
+	m := model.Obj(model.P("m", opt(model.Int("4")))).With(model.RAllOf("@t0"))
+	n := model.Obj(model.P("n", opt(model.Int("5")))).With(model.RAllOf("@t3", "@t1"))
+	if r.Bool() {
+		n.Rules = []*model.Rule{model.RAllOf("@t1", "@t3")}
+	}
+	s := &model.Schema{Types: []*model.TypeDef{
+		{Name: "@t0", Root: b}, {Name: "@t1", Root: cc}, {Name: "@t2", Root: d}, {Name: "@t3", Root: m}, {Name: "@t4", Root: n},
+	}}
+	if r.Chance(1, 4) {
+		// declaration order: children before their parents
+		s.Types[0], s.Types[1], s.Types[2], s.Types[3], s.Types[4] = s.Types[4], s.Types[3], s.Types[2], s.Types[1], s.Types[0]
+	}
+	ref := func() *model.Node {
+		x := tname(r.Intn(5))
+		if r.Chance(1, 5) {
+			if y := tname(r.Intn(5)); y != x {
+				return model.Ref(x, y)
+			}
+		}
+		return model.Ref(x)
+	}
+	switch r.Intn(4) {
+	case 0:
+		s.Root = model.Arr(ref(), ref(), ref())
+	default:
+		s.Root = model.Obj(model.P("first", ref()), model.P("second", ref()))
+		if r.Bool() {
+			s.Root.Props = append(s.Root.Props, model.P("third", opt(ref())))
+		}
+	}
+	return s
+}
+
+// arrayUnionMotif: a union of array types that differ in their item-count rules and item types,
+// one of them with item positions that are unions of overlapping scalar types: a candidate killed
+// by a later item or by the closing bracket must not take the surviving candidate with it.
+func arrayUnionMotif(r *mon.Rng) *model.Schema {
+	k := r.Range(1, 3)
+	item := func() *model.Node {
+		if r.Chance(1, 6) {
+			return model.Ref("@t1", "@t0")
+		}
+		return model.Ref("@t0", "@t1")
+	}
+	fixed := func(k int) *model.Node {
+		a := model.Arr()
+		for i := 0; i < k; i++ {
+			a.Items = append(a.Items, item())
+		}
+		a.Rules = append(a.Rules, model.RInt("minItems", k), model.RInt("maxItems", k))
+		return a
+	}
+	s := &model.Schema{Types: []*model.TypeDef{
+		{Name: "@t0", Root: model.Int("1")},
+		{Name: "@t1", Root: model.Flt("2.5")},
+		{Name: "@t2", Root: model.Int("1").With(model.RNum("max", strconv.Itoa(r.Range(3, 6))))},
+		{Name: "@t3", Root: fixed(k)},
+		{Name: "@t4", Root: fixed(k + 1)},
+		{Name: "@t5", Root: model.Arr(model.Ref("@t2"))},
+	}}
+	a, b := "@t3", "@t5"
+	switch r.Intn(4) {
+	case 0:
+		a = "@t4"
+	case 1:
+		a, b = b, a
+	}
+	switch r.Intn(4) {
+	case 0:
+		s.Root = model.Ref(a, b)
+	case 1:
+		s.Root = model.Obj(model.P("v", model.Str("s").With(model.ROr(model.OrSet(model.RStr("type", b)), model.OrName("string"), model.OrName(a)))))
+	case 2:
+		s.Root = model.Arr(model.Ref(a, b))
+	default:
+		s.Root = model.Obj(model.P("v", model.Ref(a, b)))
+		if r.Bool() {
+			s.Root.Props = append(s.Root.Props, model.P("w", model.Ref("@t4", "@t3", "@t5").With(model.RBool("optional", true))))
+		}
+	}
+	return s
 }
